@@ -5,10 +5,12 @@
 # bus_busy) for a duration; the cycles run in C (cur.hold stops at every change of an observed output, so the
 # monitor below sees every output change at its exact cycle and advances its counters in closed form in between).
 #
-# Exploration: deviation-bounded around nominal scripts (one script per configuration: FS reset/suspend/resume/
-# disconnect/VBUS loss, LS ditto, HS chirp handshake, glitchy host chirps, chirp time-out, late host chirp, HS
-# suspend/resume, HS reset from HS + speed restriction, VBUS loss / soft disconnect at HS).  At every script position
-# the explorer may, at the cost of one deviation (k = 1 quick; thorough adds k = 2 over a reduced menu):
+# Exploration: deviation-bounded around nominal scripts (one script per configuration, see SCRIPTS: FS reset/suspend/
+# resume, FS reset out of suspend/soft disconnect/VBUS loss, LS ditto, HS chirp handshake, glitchy host chirps, chirp
+# time-out, late host chirp, HS suspend/resume, HS suspend + reset out of suspend, HS reset out of HS, speed restriction
+# at HS, VBUS loss at HS, soft disconnect at HS + bus_busy).  Scripts that start in HS operation run the nominal
+# handshake once in the prologue.  At every script position the explorer may, at the cost of one deviation (k = 1 quick;
+# thorough adds k = 2 over a reduced menu):
 #   * replace the segment by any (line state, duration) of the menu (durations straddle every threshold by -1..+3),
 #   * toggle one of vbus/disconnect/full_speed_only/low_speed_only/bus_busy for that segment or from there on,
 #   * insert a glitch segment (any line state, any menu duration <= 303 cycles) or a flag pulse before the segment.
@@ -42,6 +44,14 @@ from rtlmc.explore import Spec
 
 PROPERTY = "C19"
 TECHNIQUE = "macro-step explicit-state BFS, deviation-bounded around nominal line-state scripts, run-length monitor"
+LEVEL_TEXT = ("The real USBResetSequencer netlist (real 60 MHz constants, events of up to 180 000 cycles run in C) is driven through 13 nominal "
+              "line-state scripts (FS/LS reset, suspend, resume, soft disconnect, VBUS loss; HS chirp handshake incl. glitched/late/missing host "
+              "chirps; HS suspend/resume; HS reset; speed restriction, VBUS loss and disconnect at HS) and every history that differs from a "
+              "script by at most k deviations (k=1 over the full menu of line states x durations straddling each threshold by -1..+3 cycles, "
+              "flag toggles and inserted glitches; thorough adds k=2 over a reduced menu); every output change is checked by a run-length "
+              "monitor written from the statement.")
+LEVEL_NOTE = ("Bounded by the scripts and the deviation count, not a closure over all histories; amaranth.sim conformance replay covers only "
+              "the first 30 000 (quick) / 300 000 (thorough) cycles of the sampled paths, counterexamples are replayed in full by --replay.")
 
 # UTMI constants (UTMI+ spec: XcvrSelect 00 HS / 01 FS / 10 LS; OpMode 00 normal / 01 non-driving / 10 no bit-stuff+NRZI)
 SPEED_HIGH, SPEED_FULL, SPEED_LOW = 0, 1, 2
